@@ -39,7 +39,7 @@ ASSUMPTIONS = ['names are ASCII without "." / ".." segments, backslashes or trai
 
 P = simfs.MOUNT + '/vpk'
 FOLDERS = ['', 'materials', 'materials/Dev', 'models/props.v2', 'a/b/c', 'Scripts']
-NAMES = ['file', 'File', 'readme', 'a', 'x.y', 'noext', 'UPPER']
+NAMES = ['file', 'File', 'readme', 'a', 'x.y', 'noext', 'UPPER', '', '']
 EXTS = ['txt', 'vmt', '', 'VTF', 'mdl']
 LIMITS = [None, 0, 1, 7, 1024]
 ARCH = [None, 0, 0, 1, 7]
@@ -74,6 +74,8 @@ def gen(rng: Rng, tier: str, index: int) -> dict:
         e = r.pick(EXTS)
         if '.' in n and not e:
             continue        # 'x.y' with empty extension is the same file as ('x', 'y')
+        if not n and not e:
+            continue        # a dotfile needs an extension part ('.gitignore' = empty name + extension 'gitignore')
         parts = (r.pick(FOLDERS), n, e)
         if parts not in pool:
             pool.append(parts)
